@@ -2,9 +2,11 @@
 
 Discrete axes (enumerated as cases): operand shape (rank 0..3, extents 0..2 quick / 0..3 thorough), operand class
 (unyt_array incl. 0-d unyt_array, unyt_quantity incl. size-1 quantities of rank >= 1), operation / indexing form / accessor,
-and the UNIT FAMILY of the two operands of a binary operation (unrelated units; the same unit; commensurable units in different
+the UNIT FAMILY of the two operands of a binary operation (unrelated units; the same unit; commensurable units in different
 scales; unit pairs whose product / quotient cancels to a numeric coefficient, to a coefficient and a unit, or to a scaled pure
-number - the pairs for which the ufunc wrap-up leaves through its second, rescaling exit).
+number - the pairs for which the ufunc wrap-up leaves through its second, rescaling exit), and the ARGUMENT FORMS of the
+constructors (class called x kind of input x units form x registry x dtype form x bypass_validation x name, as a full product)
+and of the view / copy accessors that take optional arguments.
 Continuous axes (z3 reals): every payload element, every value written through a view or into a copy, every unit scale
 (cancelling unit factors are table units: sympy cannot hold a solver term).
 Class and shape facts are concrete per explored path; the solver's share is the value-level statements
@@ -32,7 +34,11 @@ MANIFEST = dict(
           "code running on symbolic payloads. The solver's share is the value-level statements, decided by z3 for ALL real payload "
           "values, ALL written values w and ALL positive unit scales: a write of w through a slice / reshape / transpose / .d / "
           ".ndview / ndarray_view() / constructor-on-ndarray makes exactly the corresponding parent element equal to w (a "
-          "unit-carrying write: equal in SI) and leaves the others unchanged; writes into .v / .value / to_ndarray() / to_value() / "
+          "unit-carrying write: equal in SI) and leaves the others unchanged - the constructor statement for EVERY form of its optional "
+          "arguments (unyt_array / unyt_quantity x input a bare ndarray, a non-contiguous window on a larger ndarray, a unyt_array or "
+          "unyt_quantity built on an ndarray x 8 units/registry forms x dtype omitted or naming the data's own dtype in 3 spellings x "
+          "bypass_validation x name: up to 160 calls per shape and input kind, plus the same on float64/float32/int64 buffers of "
+          "numerals as ground facts); writes into .v / .value / to_ndarray() / to_value() / "
           "copy() / to / in_units / in_base / ndarray*unit results leave every parent term unchanged (and vice versa); a list of "
           "quantities in mixed commensurable units is coerced to the first element's unit with equal SI magnitudes; the result of "
           "multiply / divide / outer / matmul / vecdot / add / subtract / x*unit / x/unit on operands whose units cancel (km * 1/m, "
@@ -47,8 +53,9 @@ EXPLANATION = (
     "The real unyt_array.__array_ufunc__ wrap-up (unary, binary, reduce, accumulate, outer, the modf/divmod tuple branch, "
     "_get_binary_op_return_class, and both exits of the binary branch: `return out_arr` and, for unit pairs that cancel, the rescaling "
     "`mul * out_arr` / the scaled-pure-number rescaling before the class decision, reached through _multiply_units/_divide_units -> "
-    "simplify -> _cancel_mul -> as_coeff_unit), __getitem__/__setitem__/iteration, unyt_quantity.__new__ and reshape, unyt_array.__new__ (view of an "
-    "ndarray, _coerce_iterable_units for lists of quantities), Unit.__mul__ with data, the NumPy-function handlers (incl. take / einsum "
+    "simplify -> _cancel_mul -> as_coeff_unit), __getitem__/__setitem__/iteration, unyt_quantity.__new__ and reshape, unyt_array.__new__ (all four exits: bypass_validation, input already a "
+    "unyt_array, list of quantities -> _coerce_iterable_units, and the general exit np.asarray(input, dtype=dtype).view(cls), each "
+    "with every combination of the optional arguments units / registry / dtype / bypass_validation / name that reaches it), Unit.__mul__ with data, the NumPy-function handlers (incl. take / einsum "
     "which pick a class by ndim, and the `* units` wrap-up of the others), and the accessors value/v/d/ndview/ndarray_view/to_ndarray/"
     "to_value/copy/to/in_units/in_base/in_cgs/in_mks are executed on operands of every enumerated shape and class whose elements and "
     "unit scales are z3 reals. Per path: (class) every unyt result of shape () is a unyt_quantity, every unyt result with more than one "
@@ -78,10 +85,20 @@ BOUNDS = {
              "amax/ptp/min/max on payloads that are strictly increasing by construction, plus free payloads for one element against a 0-d "
              "partner in the same unit and, km against m, against a 0-d unyt_array and a quantity in another scale), index (39..61 indexing forms by rank: (), ellipsis, newaxis, integers, slices, concrete boolean masks of every "
              "applicable shape, a value-dependent mask, integer arrays incl. repeated indices; iteration, nested iteration, unpacking), func "
-             "(about 110 NumPy functions / ndarray methods / conversions / unit products, see func_catalogue), view (32 view routes: "
-             "slices, reshapes, transposes, .d/.ndview/ndarray_view(), unyt_array(x); fresh symbols written at up to 4 positions each "
-             "way, one unit-carrying write), copy (25 copy routes + ndarray*unit, unit*ndarray, ndarray*quantity), ctor (6-8 constructor "
-             "forms on an ndarray); coercion of lists/tuples of 1..3 quantities in distinct / equal / SI-prefixed units and of 2 arrays. "
+             "(about 110 NumPy functions / ndarray methods / conversions / unit products, see func_catalogue), view (37 view routes: "
+             "slices, reshapes, transposes, view(), the same with order= / axes / type arguments spelled out, .d/.ndview/ndarray_view(), "
+             "unyt_array(x); fresh symbols written at up to 4 positions each "
+             "way, one unit-carrying write), copy (35 copy routes, incl. the accessors with their optional arguments spelled out - to_value / to / in_units on the "
+             "operand's own unit name and unit object, equivalence=None, copy(order=), astype(own dtype) - + ndarray*unit, unit*ndarray, "
+             "ndarray*quantity), ctor (the constructor's argument forms, full product per shape: class called [unyt_array; unyt_quantity "
+             "for one element] x input kind [nd: bare ndarray; ndstrided: non-contiguous window (transposed, every axis reversed) on a "
+             "larger ndarray; ua / uq: a unyt_array / unyt_quantity built on an ndarray - the result must be attached to both and the "
+             "input keeps class, unit object and name; typed: float64 / float32 / int64 buffers holding numerals, ground facts] x units "
+             "[omitted; omitted + registry; name + registry; name in the default registry; Unit; Unit + its registry; Unit of another "
+             "registry + registry; another Unit (relabels unyt input)] x dtype [omitted; the data's own dtype as dtype object, as name, "
+             "as scalar type] x bypass_validation [False; True with the Unit forms] x name [omitted; given]: 80 forms per class; fresh "
+             "symbols written at up to 3 positions through the result and 2 into the buffer per form, class / shape / dtype / unit / name "
+             "of the result compared with the harness' reading of the signature); coercion of lists/tuples of 1..3 quantities in distinct / equal / SI-prefixed units and of 2 arrays. "
              "Unit scales xa, xb, xc, xd, xs are symbols > 0; in the view family xa and xb are exactly equal or more than 1e-3 apart",
     "thorough": "the same with extents 0..3 (85 shapes, payloads up to 27 symbols) and coercion lists of 1..4 quantities, 3 arrays, (1,2) arrays; "
                 "cancel family: on the 40 shapes of the quick bound plus (3,), (1,3), (3,1), (3,3) only, with 7 more pairs (m/km, km*xs/m, km*1/km, "
@@ -90,7 +107,11 @@ BOUNDS = {
 # every case is also run pinned through the shimmed library and on plain unyt with float64 data (shim conformance): the class facts
 # rest on object-dtype payloads taking the branches float payloads take
 CONFORM = {"quick": 100000, "thorough": 100000}
-OUTSIDE = ("IEEE rounding/overflow (A1); integer/complex payloads (C17); the class of size-0 results and of size-1 results of rank >= 1 (the "
+OUTSIDE = ("IEEE rounding/overflow (A1); integer/complex payloads (C17; the constructor is run on int64 / float32 buffers of numerals for the "
+           "memory relation only); constructor calls with dtype= naming ANOTHER dtype than the data has (a cast: NumPy defines it as a copy, "
+           "the property's view clause does not apply) and, in symbolic runs, any dtype but the object dtype of the solver-term payload "
+           "(dtype=float64 on float64 data is what the replay and the conformance runs execute); the optional constructor arguments passed "
+           "positionally (they are passed by keyword; Python binds both to the same parameters); the class of size-0 results and of size-1 results of rank >= 1 (the "
            "property constrains only shape () and size > 1; their shape and units are still compared); results that carry no unit "
            "(comparisons: only their shape is compared; trigonometric/exp/log ufuncs and np.frexp, which has no object loop, are not run); "
            "numpy.flatiter / nditer / tolist / item (NumPy returns bare scalars by design); non-contiguous parents for reshape (NumPy itself "
@@ -1128,6 +1149,12 @@ def view_routes(E):
     add("transpose x.swapaxes(0,-1)", lambda a: a.swapaxes(0, -1))
     add("transpose np.moveaxis(x,0,-1)", lambda a: np.moveaxis(a, 0, -1))
     add("x.view()", lambda a: a.view())
+    # the same routes with their optional arguments spelled out
+    add("x.view(type(x))", lambda a: a.view(type(a)))
+    add("reshape x.reshape(-1, order='C')", lambda a: a.reshape(-1, order="C"))
+    add("reshape x.reshape(1, -1) (several arguments)", lambda a: a.reshape(1, -1))
+    add("reshape x.ravel(order='C')", lambda a: a.ravel(order="C"))
+    add("transpose x.transpose(axes reversed)", lambda a: a.transpose(tuple(range(np.ndim(a)))[::-1]))
     add("x.d", lambda a: a.d, lambda i: i, typed=False)
     add("x.ndview", lambda a: a.ndview, lambda i: i, typed=False)
     add("x.ndarray_view()", lambda a: a.ndarray_view(), lambda i: i, typed=False)
@@ -1161,6 +1188,17 @@ def copy_routes(E):
         ("x.to_equivalent(xb, 'spectral') [same dimension]", lambda a: a.to_equivalent("xb", "spectral"), ("si", sb)),
         ("x.in_units(xb, equivalence='spectral')", lambda a: a.in_units("xb", equivalence="spectral"), ("si", sb)),
         ("x.flatten()", lambda a: a.flatten(), "same"),
+        # the same accessors with their optional arguments spelled out, naming what the operand already is / has
+        ("x.to_value(xa) [own unit]", lambda a: a.to_value("xa"), "same"),
+        ("x.to_value(x.units) [own unit object]", lambda a: a.to_value(a.units), "same"),
+        ("x.to_value(xb, equivalence=None)", lambda a: a.to_value("xb", equivalence=None), ("si", sb)),
+        ("x.to(xa, equivalence=None) [same unit]", lambda a: a.to("xa", equivalence=None), "same"),
+        ("x.in_units(x.units) [same unit object]", lambda a: a.in_units(a.units), "same"),
+        ("x.copy(order='C')", lambda a: a.copy(order="C"), "same"),
+        ("x.copy(order='K')", lambda a: a.copy(order="K"), "same"),
+        ("x.astype(own dtype)", lambda a: a.astype(a.dtype), "same"),
+        ("np.array(x, dtype=own dtype)", lambda a: np.array(a, dtype=a.dtype), "same"),
+        ("x.flatten(order='C')", lambda a: a.flatten(order="C"), "same"),
         ("np.array(x)", lambda a: np.array(a), "same"),
         ("x[integer arrays]", lambda a: a[tuple(np.indices(np.shape(a)))] if np.ndim(a) else NotImplemented, "same"),
         ("x[mask] (boolean index)", lambda a: a[np.ones(np.shape(a), dtype=bool)], "same"),
@@ -1320,48 +1358,170 @@ def make_copy_case(shape, cls):
     return Case(f"C16/copy/{cls}{sid(shape)}", h, bounds="symbolic: payloads, written values, both unit scales", weight=3 + size_of(shape), budget_s=900, max_paths=4000)
 
 
-def make_ctor_case(shape):
-    """unyt_array(ndarray, unit) / unyt_quantity(ndarray, unit) is a view of the ndarray; ndarray*unit is not"""
+# ------------------------------------------------------------------------------------------------ family 4b: the constructor's call forms
+#
+# "Building an array from a NumPy array with the constructor is a view" is a statement about unyt_array.__new__ /
+# unyt_quantity.__new__, whose signature is (input, units=None, registry=None, dtype=None, *, bypass_validation=False, name=None)
+# and which leaves through four exits (bypass_validation; input already a unyt_array; a list of quantities; the general exit).
+# Which exit is taken, and what happens to the buffer on the way, depends on WHICH ARGUMENTS ARE GIVEN AND IN WHAT FORM - so the
+# argument forms are an axis: class called x kind of input x units form x registry given x dtype form x bypass_validation x name,
+# walked as a full product. The dtype forms all name the dtype the data already has (a request for another dtype is a cast, which
+# NumPy defines as a copy): in symbolic runs that is the object dtype of the solver-term payload, in the replay float64.
+
+CTOR_KINDS = ["nd", "ndstrided", "ua", "uq", "typed"]
+CTOR_DTYPE_FORMS = [("", None),
+                    (", dtype=<own dtype object>", lambda b: b.dtype),
+                    (", dtype=<own dtype name>", lambda b: b.dtype.name),
+                    (", dtype=<own scalar type>", lambda b: b.dtype.type)]
+TYPED_DTYPES = ["float64", "float32", "int64"]
+
+
+def ctor_kinds_for(shape):
+    n = size_of(shape)
+    out = ["nd", "ua", "typed"]
+    if n >= 1 and len(shape) >= 1:
+        out.append("ndstrided")
+    if n == 1:
+        out.append("uq")
+    return out
+
+
+def ctor_unit_forms(S, from_unyt):
+    """(text, keyword arguments, (name, dimensions, scale or None) the result must carry, usable with bypass_validation).
+    The expectation is the harness' own reading of the documented signature: a units argument names the unit, no units argument
+    means dimensionless for bare data and the input's own unit for unyt input; registry= only says where a NAME is looked up"""
+    D = S.unyt.dimensions
+    xa = ("xa", D.length, S.sa)
+    own = xa if from_unyt else ("dimensionless", D.dimensionless, 1.0)
+    return [
+        ("", {}, own, False),
+        (", registry=reg", dict(registry=S.reg), own, False),
+        (", 'xa', registry=reg", dict(units="xa", registry=S.reg), xa, False),
+        (", 'km'", dict(units="km"), ("km", D.length, 1000.0), False),
+        (", Unit", dict(units=S.ua), xa, True),
+        (", Unit, registry=<its registry>", dict(units=S.ua, registry=S.reg), xa, True),
+        (", Unit of another registry, registry=reg", dict(units=S.ua2, registry=S.reg), ("xa", D.length, None), False),
+        (", <another Unit>", dict(units=S.ub), ("xb", D.length, S.sb), True),
+    ]
+
+
+def ctor_forms(S, kind, shape):
+    """the full product of the optional arguments: (label, class, keyword-argument builder(b), expected unit, expected name)"""
+    from_unyt = kind in ("ua", "uq")
+    classes = [("unyt_array", S.UA)] + ([("unyt_quantity", S.UQ)] if size_of(shape) == 1 else [])
+    src = {"nd": "nd", "ndstrided": "strided nd", "ua": "unyt_array(nd,Unit)", "uq": "unyt_quantity(nd,Unit)"}[kind]
+    out = []
+    for cname, cls in classes:
+        for utext, ukw, want, bypass_ok in ctor_unit_forms(S, from_unyt):
+            for dtext, dt in CTOR_DTYPE_FORMS:
+                for bypass in ((False, True) if bypass_ok else (False,)):
+                    for name in (None, "n"):
+                        lab = f"{cname}({src}{utext}{dtext}{', bypass_validation=True' if bypass else ''}{', name' if name else ''})"
+
+                        def kw(b, ukw=ukw, dt=dt, bypass=bypass, name=name):
+                            k = dict(ukw)
+                            if dt is not None:
+                                k["dtype"] = dt(b)
+                            if bypass:
+                                k["bypass_validation"] = True
+                            if name is not None:
+                                k["name"] = name
+                            return k
+                        out.append((lab, cls, kw, want, name))
+    return out
+
+
+def strided_window(root):
+    """a non-contiguous window on a larger buffer: the transposed buffer, every axis walked backwards without its first slot"""
+    return root.T[tuple(slice(None, 0, -1) for _ in range(root.ndim))]
+
+
+def make_ctor_case(shape, kind):
+    """unyt_array(ndarray, ...) / unyt_quantity(ndarray, ...) is a view of the ndarray for every form of the optional arguments;
+    kind: what is handed over - a bare ndarray, a non-contiguous window on a larger ndarray, a unyt_array / unyt_quantity that was
+    itself built on an ndarray (then the result is attached to both), or (typed) float64 / float32 / int64 buffers of numerals"""
+    n = size_of(shape)
+
     def h(ctx):
         unyt = ctx.mods["unyt"]
         D = unyt.dimensions
-        reg = ctx.registry([])
-        sa = ctx.real("xa_s", pos=True)
-        ctx.add_row(reg, "xa", D.length, sa, 0.0)
-        ua = unyt.Unit("xa", registry=reg)
-        forms = [("unyt_array(nd,'xa',registry)", lambda b: unyt.unyt_array(b, "xa", registry=reg)),
-                 ("unyt_array(nd,Unit)", lambda b: unyt.unyt_array(b, ua)),
-                 ("unyt_array(nd,Unit,name)", lambda b: unyt.unyt_array(b, ua, name="n")),
-                 ("unyt_array(nd) dimensionless", lambda b: unyt.unyt_array(b)),
-                 ("unyt_array(unyt_array(nd,Unit))", lambda b: unyt.unyt_array(unyt.unyt_array(b, ua))),
-                 ("unyt_array(nd,Unit,bypass_validation)", lambda b: unyt.unyt_array(b, ua, bypass_validation=True))]
-        if size_of(shape) == 1:
-            forms += [("unyt_quantity(nd,Unit)", lambda b: unyt.unyt_quantity(b, ua)),
-                      ("unyt_quantity(nd,'xa',registry)", lambda b: unyt.unyt_quantity(b, "xa", registry=reg))]
-        k = 0
-        for bi, (lab, f) in enumerate(forms):
-            b = reals(ctx, f"b{bi}", shape)
-            expected = list(elements(b))
-            r = f(b)
-            ctx.require(f"{lab}/shape", tuple(r.shape) == tuple(shape))
-            if size_of(shape) == 0:
-                continue
-            ctx.require(f"{lab}/np.shares_memory with the ndarray", bool(np.shares_memory(r, b)))
-            idx = list(np.ndindex(*shape))
-            for pos in positions(shape):
-                k += 1
-                w = ctx.real(f"w{k}")
-                write_at(r, pos, w)
-                expected[idx.index(pos)] = w
-            ctx.require(f"{lab}/write through the unyt object reaches the ndarray", all_exact(elements(b), expected))
-            for pos in positions(shape, 2):
-                k += 1
-                w = ctx.real(f"w{k}")
-                write_at(b, pos, w)
-                expected[idx.index(pos)] = w
-            ctx.require(f"{lab}/write into the ndarray is visible through the unyt object", all_exact(read(r), expected))
-            ctx.observe(lab, read(r))
-    return Case(f"C16/ctor/nd{sid(shape)}", h, bounds="symbolic: payloads, written values, unit scale", weight=2 + size_of(shape))
+        S = Env()
+        S.unyt, S.UA, S.UQ = unyt, unyt.unyt_array, unyt.unyt_quantity
+        S.reg, S.reg2 = ctx.registry([]), ctx.registry([])
+        S.sa, S.sb, sa2 = ctx.real("xa_s", pos=True), ctx.real("xb_s", pos=True), ctx.real("xa2_s", pos=True)
+        ctx.add_row(S.reg, "xa", D.length, S.sa, 0.0)
+        ctx.add_row(S.reg, "xb", D.length, S.sb, 0.0)
+        ctx.add_row(S.reg2, "xa", D.length, sa2, 0.0)
+        S.ua, S.ub = unyt.Unit("xa", registry=S.reg), unyt.Unit("xb", registry=S.reg)
+        S.ua2 = unyt.Unit("xa", registry=S.reg2)
+
+        def buffers():
+            """[(tag, root ndarray, the object handed to the constructor, index map of that object into root, intermediate or None,
+            the intermediate's unit object)]"""
+            if kind == "typed":
+                out = []
+                for dt in TYPED_DTYPES:
+                    root = (np.arange(n) + 1).astype(dt).reshape(shape)
+                    out.append((f" on a {dt} buffer of numerals", root, root, np.arange(n).reshape(shape), None, None))
+                return out
+            if kind == "ndstrided":
+                root = reals(ctx, "b", tuple(e + 1 for e in shape[::-1]))
+                I = np.arange(root.size).reshape(root.shape)
+                return [("", root, strided_window(root), strided_window(I), None, None)]
+            root = reals(ctx, "b", shape)
+            I = np.arange(n).reshape(shape)
+            if kind == "nd":
+                return [("", root, root, I, None, None)]
+            src = (S.UA if kind == "ua" else S.UQ)(root, S.ua, name="src")
+            return [("", root, src, I, src, src.units)]
+
+        k = [0]
+
+        def value():
+            k[0] += 1
+            return float(70 + k[0] % 50) if kind == "typed" else ctx.real(f"w{k[0]}")
+
+        for tag, root, b, imap, src, src_units in buffers():
+            flat = imap.ravel()
+            for lab, cls, kw, (uname, udims, uscale), name in ctor_forms(S, "nd" if kind == "typed" else kind, shape):
+                lab = lab + tag
+                expected = list(elements(root))  # whatever the form before did, this one starts from what the buffer holds now
+                ri = call(lambda: cls(b, **kw(b)))
+                ctx.require(f"{lab}/returns", ri[0] == "ok", exc=type(ri[1]).__name__, msg=str(ri[1])[:100])
+                if ri[0] != "ok":
+                    continue
+                r = ri[1]
+                ctx.require(f"{lab}/exactly the class that was called", type(r) is cls, got=type(r).__name__)
+                ctx.require(f"{lab}/shape", tuple(r.shape) == tuple(shape), got=tuple(r.shape))
+                ctx.require(f"{lab}/dtype of the data", r.dtype == b.dtype, got=str(r.dtype))
+                units = getattr(r, "units", None)
+                ctx.require(f"{lab}/unit", And(isinstance(units, unyt.Unit) and str(units) == uname and bool(units.dimensions == udims),
+                                                True if uscale is None or not isinstance(units, unyt.Unit) else exact_eq(units.base_value, uscale)),
+                            got=str(units))
+                if name is not None:
+                    ctx.require(f"{lab}/name", r.name == name, got=repr(r.name))
+                if src is not None:
+                    ctx.require(f"{lab}/the unyt input keeps its class, unit and name",
+                                type(src) is (S.UA if kind == "ua" else S.UQ) and src.units is src_units and src.name == "src" and r is not src)
+                if n == 0 or tuple(r.shape) != tuple(shape):
+                    continue
+                ctx.require(f"{lab}/np.shares_memory with the ndarray", bool(np.shares_memory(r, root)) and (src is None or bool(np.shares_memory(r, src))))
+                ctx.require(f"{lab}/reads the ndarray's elements", all_exact(read(r), [expected[j] for j in flat]))
+                for pos in positions(shape, 3):
+                    w = value()
+                    write_at(r, pos, w)
+                    expected[int(imap[pos])] = w
+                ctx.require(f"{lab}/write through the unyt object reaches the ndarray", all_exact(elements(root), expected))
+                if src is not None:
+                    ctx.require(f"{lab}/write through the unyt object reaches the unyt input", all_exact(read(src), [expected[j] for j in flat]))
+                for pos in positions(shape, 2):
+                    w = value()
+                    write_at(b if src is None else root, pos, w)
+                    expected[int(imap[pos])] = w
+                ctx.require(f"{lab}/write into the ndarray is visible through the unyt object", all_exact(read(r), [expected[j] for j in flat]))
+            ctx.observe("buffer" + tag, list(elements(root)))
+    return Case(f"C16/ctor/{kind}/{sid(shape)}", h, bounds="symbolic: payloads, written values, unit scales (typed: numerals, ground facts)",
+                weight=3 + size_of(shape), budget_s=900, max_paths=4000)
 
 
 # ------------------------------------------------------------------------------------------------ family 5: coercion of quantity lists
@@ -1430,7 +1590,8 @@ def cases(tier, mods):
             if size_of(shape) >= 1:
                 out.append(make_view_case(shape, cls))
                 out.append(make_copy_case(shape, cls))
-        out.append(make_ctor_case(shape))
+        for kind in ctor_kinds_for(shape):
+            out.append(make_ctor_case(shape, kind))
     nmax = 3 if tier == "quick" else 4
     for n in range(1, nmax + 1):
         for form in ("list", "tuple"):
